@@ -1,0 +1,198 @@
+"""Verification hooks (add-only instrumentation).
+
+Nothing in this module does anything unless the environment variable TLEXPORT_VERIF names a file; then
+`emit` appends one JSON line per event to that file.  Events are written at the linearization points of
+this sequential program (function exit), so program order is event order.  Hooks never change control
+flow, arguments or results of the functions they observe.
+"""
+import functools
+import hashlib
+import json
+import os
+
+GUARD = "TLEXPORT_VERIF"
+_n = 0
+
+
+def on():
+    return bool(os.environ.get(GUARD))
+
+
+def _j(x):
+    if isinstance(x, (bytes, bytearray, memoryview)):
+        return bytes(x).hex()
+    if isinstance(x, (list, tuple)):
+        return [_j(v) for v in x]
+    if isinstance(x, (set, frozenset)):
+        return sorted(_j(v) for v in x)
+    if isinstance(x, dict):
+        return {str(k): _j(v) for k, v in x.items()}
+    if isinstance(x, (int, float, str, bool)) or x is None:
+        return x
+    return str(x)
+
+
+def emit(ev, **fields):
+    path = os.environ.get(GUARD)
+    if not path:
+        return
+    global _n
+    _n += 1
+    try:
+        with open(path, "a") as f:
+            f.write(json.dumps({"n": _n, "ev": ev, **{k: _j(v) for k, v in fields.items()}}) + "\n")
+    except Exception:
+        pass
+
+
+def h8(b):
+    """short content hash of a byte string (never the bytes themselves)"""
+    if b is None:
+        return None
+    return hashlib.sha256(bytes(b)).hexdigest()[:16]
+
+
+def traced(ev, before=None, after=None):
+    """decorator: with the guard off the function is called directly; with it on, `before(*args)` is
+    evaluated first and `after(result, exc, *args)` afterwards and both dicts are emitted as one event
+    (also when the function raises -- the exception is re-raised unchanged)."""
+    def deco(fn):
+        @functools.wraps(fn)
+        def wrapper(*a, **k):
+            if not os.environ.get(GUARD):
+                return fn(*a, **k)
+            try:
+                pre = before(*a, **k) if before else {}
+            except Exception as e:  # a projection error must never disturb the program
+                pre = {"hook_error": repr(e)}
+            res, exc = None, None
+            try:
+                res = fn(*a, **k)
+                return res
+            except BaseException as e:
+                exc = e
+                raise
+            finally:
+                try:
+                    post = after(res, exc, *a, **k) if after else {}
+                except Exception as e:
+                    post = {"hook_error": repr(e)}
+                emit(ev, **pre, **post, ok=exc is None, **({"exc": type(exc).__name__} if exc is not None else {}))
+        return wrapper
+    return deco
+
+
+# ---------------------------------------------------------------- projections (cheap scalars only)
+def _epoch(dec, isserver):
+    """which TLS 1.3 key is installed for the direction: 'hs' | 'app' | None (<= TLS 1.2)"""
+    if not hasattr(dec, "server_application_key"):
+        return None
+    key = dec.server_key if isserver else dec.client_key
+    app = dec.server_application_key if isserver else dec.client_application_key
+    hs = dec.server_handshake_key if isserver else dec.client_handshake_key
+    if key is app and key is not hs:
+        return "app"
+    if key is hs and key is not app:
+        return "hs"
+    return "app" if key == app else "hs"
+
+
+def decrypt_before(dec, record, isserver):
+    d = {"dir": "s" if isserver else "c", "seq": dec.server_seq if isserver else dec.client_seq,
+         "epoch": _epoch(dec, isserver), "rtype": record.record_type, "rlen": len(record.raw),
+         "ct": h8(record.raw)}
+    lb = getattr(dec, "last_block_server" if isserver else "last_block_client", None)
+    if lb is not None:
+        d["chain"] = h8(lb)
+    return d
+
+
+def decrypt_after(res, exc, dec, record, isserver):
+    d = {"seq_after": dec.server_seq if isserver else dec.client_seq}
+    if exc is None and res is not None:
+        d["plen"] = len(res)
+        d["ph"] = h8(res)
+    lb = getattr(dec, "last_block_server" if isserver else "last_block_client", None)
+    if lb is not None:
+        d["chain_after"] = h8(lb)
+    return d
+
+
+def update_keys_after(res, exc, dec, isserver):
+    return {"dir": "s" if isserver else "c", "epoch": _epoch(dec, isserver),
+            "seq_after": dec.server_seq if isserver else dec.client_seq}
+
+
+def keys_of(dec):
+    """installed key material of a (TLS) Decryptor -- only ever written with the guard on"""
+    out = {}
+    for k in ("client_key", "server_key", "client_iv", "server_iv", "client_mac", "server_mac",
+              "client_handshake_key", "server_handshake_key", "client_handshake_iv", "server_handshake_iv",
+              "client_application_key", "server_application_key", "client_application_iv", "server_application_iv"):
+        v = getattr(dec, k, None)
+        if isinstance(v, (bytes, bytearray)):
+            out[k] = bytes(v).hex()
+    return out
+
+
+def pn_before(sess, pkt):
+    from tlexport.quic.quic_session import PACKET_TYPE_MAP
+    sp = PACKET_TYPE_MAP[pkt.packet_type]
+    largest = (sess.packet_number_server if pkt.isserver else sess.packet_number_client)[sp]
+    return {"dir": "s" if pkt.isserver else "c", "space": str(pkt.packet_type.name), "largest": str(largest),
+            "trunc": int.from_bytes(pkt.packet_num, "big"), "pnlen": len(pkt.packet_num)}
+
+
+def pn_after(res, exc, sess, pkt):
+    from tlexport.quic.quic_session import PACKET_TYPE_MAP
+    sp = PACKET_TYPE_MAP[pkt.packet_type]
+    largest = (sess.packet_number_server if pkt.isserver else sess.packet_number_client)[sp]
+    return {"full": str(int.from_bytes(res, "big")) if res is not None else None, "largest_after": str(largest)}
+
+
+def qdec_before(dec, ciphertext, packet_number, associated_data, isserver):
+    return {"dir": "s" if isserver else "c", "pn": str(int.from_bytes(packet_number, "big")), "clen": len(ciphertext)}
+
+
+def qdec_after(res, exc, dec, ciphertext, packet_number, associated_data, isserver):
+    return {"plen": len(res) if res is not None else None}
+
+
+def epoch_after(res, exc, sess, key_phase_bit, isserver):
+    return {"dir": "s" if isserver else "c", "phase": key_phase_bit, "epoch_c": sess.epoch_client,
+            "epoch_s": sess.epoch_server, "gens": len(sess.decryptors.get("Application", []))}
+
+
+def crypto_after(res, exc, tls, frame):
+    sp = frame.src_packet.packet_type
+    srv = frame.src_packet.isserver
+    return {"dir": "s" if srv else "c", "space": sp.name, "off": frame.offset, "len": frame.crypto_length,
+            "contig": (tls.server_offset if srv else tls.client_offset)[sp],
+            "suite": tls.ciphersuite, "have_cr": tls.client_random is not None}
+
+
+def frame_before(sess, frame):
+    p = frame.src_packet
+    d = {"dir": "s" if p.isserver else "c", "ft": frame.frame_type if isinstance(frame.frame_type, int) else None,
+         "ptype": p.packet_type.name, "ts": repr(p.ts), "pn": bytes(p.packet_num).hex() if getattr(p, "packet_num", None) is not None else None}
+    if hasattr(frame, "stream_data") and frame.stream_data is not None:
+        d.update(sid=frame.stream_id, off=frame.offset, dlen=len(frame.stream_data), fin=frame.fin, dh=h8(frame.stream_data))
+    if hasattr(frame, "connection_id"):
+        d["cid"] = frame.connection_id
+    return d
+
+
+def frame_after(res, exc, sess, frame):
+    return {"nout": len(sess.output_buffer), "ccids": len(sess.client_cids), "scids": len(sess.server_cids)}
+
+
+def quic_keys(sess):
+    out = {}
+    for k, v in sess.keys.items():
+        if isinstance(v, (bytes, bytearray)):
+            out[k] = bytes(v).hex()
+    gens = []
+    for g in sess.decryptors.get("Application", []) if isinstance(sess.decryptors.get("Application"), list) else []:
+        gens.append({"skey": g.server_key.hex(), "siv": g.server_iv.hex(), "ckey": g.client_key.hex(), "civ": g.client_iv.hex()})
+    out["generations"] = gens
+    return out
